@@ -11,6 +11,7 @@ MsgDesign  == \A c \in MsgCaseSet  : HoldsMsg(c, ExpectedMsg(c)) <=> ~MsgLead(c)
 WireDesign == \A c \in WireCaseSet : HoldsWire(c, ExpectedWire(c), ExpectedWire(Effective(c)))
 ValDesign  == \A c \in ValCaseSet  : HoldsVal(c, ExpectedVal(c)) <=> ~ValLead(c)
 ReqDesign  == \A c \in ReqCaseSet  : HoldsReq(c, ExpectedReq(c)) <=> ~ReqLead(c)
+VcDesign   == \A c \in VcCaseSet   : HoldsVc(c, ExpectedVc(c)) <=> ~VcLead(c)
 
 \* Classify is idempotent under Effective and total
 ClassifyTotal == \A c \in WireCaseSet : Classify(c).cls \in {"reject", "call", "notif", "result", "error"}
@@ -36,18 +37,21 @@ Export ==
   /\ ndJsonSerialize("cases_wire.ndjson", SetSeq(WireCaseSet))
   /\ ndJsonSerialize("cases_val.ndjson", SetSeq(ValCaseSet))
   /\ ndJsonSerialize("cases_req.ndjson", SetSeq(ReqCaseSet))
+  /\ ndJsonSerialize("cases_vc.ndjson", SetSeq(VcCaseSet))
 
 ASSUME MsgDesign
 ASSUME WireDesign
 ASSUME ValDesign
 ASSUME ReqDesign
+ASSUME VcDesign
 ASSUME ClassifyTotal /\ ValidAccepted
 ASSUME Witnesses
 ASSUME PrintT(ToJson([msg |-> Cardinality(MsgCaseSet), wire |-> Cardinality(WireCaseSet),
-                      val |-> Cardinality(ValCaseSet), req |-> Cardinality(ReqCaseSet),
+                      val |-> Cardinality(ValCaseSet), req |-> Cardinality(ReqCaseSet), vc |-> Cardinality(VcCaseSet),
                       msgLeads |-> Cardinality({c \in MsgCaseSet : MsgLead(c)}),
                       valLeads |-> Cardinality({c \in ValCaseSet : ValLead(c)}),
                       reqLeads |-> Cardinality({c \in ReqCaseSet : ReqLead(c)}),
+                      vcLeads |-> Cardinality({c \in VcCaseSet : VcLead(c)}),
                       leadIds |-> SetSeq(LeadIds)]))
 ASSUME Export
 =============================================================================
